@@ -656,6 +656,7 @@ func (b *teletextPageBuffer) parseDataUnit(i []byte, id uint8, t time.Time) {
 
 // TODO Add tests
 func (b *teletextPageBuffer) parsePacket(i []byte, magazineNumber, packetNumber uint8, t time.Time) {
+	verifEmit("ttx.packet", b, int(magazineNumber), int(packetNumber), b.receiving, int(b.magazineNumber), b.pageNumber)
 	if packetNumber == 0 {
 		b.parsePacketHeader(i, magazineNumber, t)
 	} else if b.receiving && magazineNumber == b.magazineNumber && (packetNumber >= 1 && packetNumber <= 25) {
